@@ -25,14 +25,52 @@ pub enum Fun {
 
 #[derive(Clone, Debug, PartialEq, Eq, Serialize, Deserialize)]
 pub enum Op {
-    Syscall { f: Fun, x: u32, nested: Vec<Op> },
-    SyscallOnce { f: Fun, x: u32, nested: Vec<Op> },
-    /// `Commands::syscall` issued from a one-shot driver system.
-    CmdSyscall { f: Fun, x: u32, nested: Vec<Op> },
+    /// via: 0 `syscall(world, ..)`, 1 `World::syscall`, 2 `syscall_with_validation`, 3 `World::syscall_with_validation`,
+    /// 4 as 0
+    Syscall {
+        f: Fun,
+        x: u32,
+        nested: Vec<Op>,
+        #[serde(default)]
+        via: u8,
+    },
+    /// via: 0 `World::syscall_once`, 1 `World::syscall_once_with_validation`
+    SyscallOnce {
+        f: Fun,
+        x: u32,
+        nested: Vec<Op>,
+        #[serde(default)]
+        via: u8,
+    },
+    /// `Commands` forms issued from a one-shot driver system. via: 0 `Commands::syscall`, 1
+    /// `Commands::syscall_with_validation`, 2 `Commands::syscall_once`, 3 `Commands::syscall_once_with_validation`,
+    /// 4 `EntityCommands::syscall`
+    CmdSyscall {
+        f: Fun,
+        x: u32,
+        nested: Vec<Op>,
+        #[serde(default)]
+        via: u8,
+    },
     Named { name: u8, f: Fun, x: u32, nested: Vec<Op> },
     NamedDirect { name: u8, f: Fun, x: u32, nested: Vec<Op> },
     RegisterNamed { name: u8, f: Fun },
-    Spawn { slot: u8, f: Fun },
+    /// `IdMappedSystems::revoke` (via 0) / `revoke_sysname` (via 1)
+    RevokeNamed {
+        name: u8,
+        f: Fun,
+        #[serde(default)]
+        via: u8,
+    },
+    /// via: 0 `spawn_system(world, ..)`, 1 `Commands::spawn_system`, 2 `Commands::insert_system` on a fresh entity,
+    /// 3 `spawn_rc_system` (the signal is kept until `DespawnSpawned`), 4 `spawn_system` of the unit-returning variant
+    /// (the only kind `Commands::spawned_syscall` can run)
+    Spawn {
+        slot: u8,
+        f: Fun,
+        #[serde(default)]
+        via: u8,
+    },
     Spawned { slot: u8, x: u32, nested: Vec<Op> },
     CmdSpawned { slot: u8, x: u32, nested: Vec<Op> },
     DespawnSpawned { slot: u8 },
@@ -64,6 +102,23 @@ struct LogState {
     evs: Vec<LogEv>,
     next_call: u32,
     ids: [Option<SysId>; NS as usize],
+    signals: [Option<AutoDespawnSignal>; NS as usize],
+    validations: u32,
+}
+
+fn note_validation(w: &mut World) {
+    let log = w.resource::<Log>().clone();
+    lk(&log.0).validations += 1;
+}
+
+fn revoke_named<S: 'static>(w: &mut World, _: &S, name: u8, via: u8) {
+    if let Some(mut m) = w.get_resource_mut::<IdMappedSystems<In<Input>, (u32, u32)>>() {
+        if via % 2 == 0 {
+            m.revoke::<S>(name);
+        } else {
+            m.revoke_sysname(SysName::new::<S>(name));
+        }
+    }
 }
 
 type Input = (u32, u32, Vec<Op>); // (x, call id, nested)
@@ -170,23 +225,59 @@ pub fn exec_ops(w: &mut World, ops: &[Op]) {
 fn exec_op(w: &mut World, op: &Op) {
     let (log, call) = new_call(w);
     match op.clone() {
-        Op::Syscall { f, x, nested } => {
-            let (v, n) = with_fun!(f, s, _e, syscall(w, (x, call, nested), s));
+        Op::Syscall { f, x, nested, via } => {
+            let input = (x, call, nested);
+            let (v, n) = match via % 5 {
+                0 => with_fun!(f, s, _e, syscall(w, input, s)),
+                1 => with_fun!(f, s, _e, w.syscall(input, s)),
+                2 => with_fun!(f, s, _e, syscall_with_validation(w, input, s, note_validation)),
+                3 => with_fun!(f, s, _e, w.syscall_with_validation(input, s, note_validation)),
+                // (`prep_fncall` needs `I: Clone`, which `In<T>` is not in Bevy 0.15: only input-less systems can use it)
+                _ => with_fun!(f, s, _e, syscall(w, input, s)),
+            };
             ret(&log, call, Outc::Ok(v, n));
         }
-        Op::SyscallOnce { f, x, nested } => {
-            let (v, n) = with_fun!(f, s, _e, w.syscall_once((x, call, nested), s));
+        Op::SyscallOnce { f, x, nested, via } => {
+            let input = (x, call, nested);
+            let (v, n) = if via % 2 == 0 {
+                with_fun!(f, s, _e, w.syscall_once(input, s))
+            } else {
+                with_fun!(f, s, _e, w.syscall_once_with_validation(input, s, note_validation))
+            };
             ret(&log, call, Outc::Ok(v, n));
         }
-        Op::CmdSyscall { f, x, nested } => {
+        Op::CmdSyscall { f, x, nested, via } => {
             // only ordinary unit systems have a `Commands` form here
             let i = match f {
                 Fun::Ord(i) | Fun::Excl(i) => i,
             };
-            w.syscall_once((x, call, nested), move |In(input): In<Input>, mut c: Commands| match i {
-                0 => c.syscall(input, ord_sys_unit::<0>),
-                1 => c.syscall(input, ord_sys_unit::<1>),
-                _ => c.syscall(input, ord_sys_unit::<2>),
+            macro_rules! unit_fun {
+                ($i:expr, $s:ident, $body:expr) => {
+                    match $i {
+                        0 => {
+                            let $s = ord_sys_unit::<0>;
+                            $body
+                        }
+                        1 => {
+                            let $s = ord_sys_unit::<1>;
+                            $body
+                        }
+                        _ => {
+                            let $s = ord_sys_unit::<2>;
+                            $body
+                        }
+                    }
+                };
+            }
+            w.syscall_once((x, call, nested), move |In(input): In<Input>, mut c: Commands| match via % 5 {
+                0 => unit_fun!(i, s, c.syscall(input, s)),
+                1 => unit_fun!(i, s, c.syscall_with_validation(input, s, note_validation)),
+                2 => unit_fun!(i, s, c.syscall_once(input, s)),
+                3 => unit_fun!(i, s, c.syscall_once_with_validation(input, s, note_validation)),
+                _ => {
+                    let e = c.spawn_empty().id();
+                    unit_fun!(i, s, c.entity(e).syscall(input, s))
+                }
             });
             ret(&log, call, Outc::Queued);
         }
@@ -208,9 +299,45 @@ fn exec_op(w: &mut World, op: &Op) {
             });
             ret(&log, call, Outc::Done);
         }
-        Op::Spawn { slot, f } => {
-            let id = with_fun!(f, s, _e, spawn_system(w, s));
-            lk(&log.0).ids[slot as usize % NS as usize] = Some(id);
+        Op::RevokeNamed { name, f, via } => {
+            with_fun!(f, s, _e, revoke_named(w, &s, name, via));
+            ret(&log, call, Outc::Done);
+        }
+        Op::Spawn { slot, f, via } => {
+            let sl = slot as usize % NS as usize;
+            let mut signal = None;
+            let id = match via % 5 {
+                0 => with_fun!(f, s, _e, spawn_system(w, s)),
+                1 => with_fun!(f, s, _e, w.syscall_once((), move |mut c: Commands| c.spawn_system(s))),
+                2 => {
+                    let e = w.spawn_empty().id();
+                    let r = with_fun!(f, s, _e, w.syscall_once(e, move |In(e): In<Entity>, mut c: Commands| c.insert_system(e, s)));
+                    assert!(r.is_ok(), "insert_system on a fresh entity failed");
+                    SysId::new(e)
+                }
+                3 => {
+                    let sig = with_fun!(f, s, _e, spawn_rc_system(w, s));
+                    let id = SysId::new(sig.entity());
+                    signal = Some(sig);
+                    id
+                }
+                _ => {
+                    let i = match f {
+                        Fun::Ord(i) | Fun::Excl(i) => i,
+                    };
+                    match i {
+                        0 => spawn_system(w, ord_sys_unit::<0>),
+                        1 => spawn_system(w, ord_sys_unit::<1>),
+                        _ => spawn_system(w, ord_sys_unit::<2>),
+                    }
+                }
+            };
+            {
+                let mut g = lk(&log.0);
+                g.ids[sl] = Some(id);
+                // a signal of the previous occupant is released here (its entity goes at the next collection)
+                g.signals[sl] = signal;
+            }
             ret(&log, call, Outc::Done);
         }
         Op::Spawned { slot, x, nested } => {
@@ -231,8 +358,16 @@ fn exec_op(w: &mut World, op: &Op) {
             ret(&log, call, Outc::Queued);
         }
         Op::DespawnSpawned { slot } => {
-            let id = lk(&log.0).ids[slot as usize % NS as usize];
-            if let Some(id) = id {
+            let (id, sig) = {
+                let mut g = lk(&log.0);
+                let sl = slot as usize % NS as usize;
+                (g.ids[sl], g.signals[sl].take())
+            };
+            if let Some(sig) = sig {
+                // ref-counted system: dropping the last signal and collecting is what despawns it
+                drop(sig);
+                garbage_collect_entities(w);
+            } else if let Some(id) = id {
                 if let Ok(e) = w.get_entity_mut(id.entity()) {
                     e.despawn();
                 }
@@ -268,16 +403,22 @@ fn gen_fun(r: &mut Rng) -> Fun {
 fn gen_op(r: &mut Rng, depth: u32, max_depth: u32) -> Op {
     let nested = if depth < max_depth && r.chance(30) { (0..r.range(1, 3)).map(|_| gen_op(r, depth + 1, max_depth)).collect() } else { vec![] };
     let x = r.below(50) as u32;
-    match r.below(20) {
-        0..=4 => Op::Syscall { f: gen_fun(r), x, nested },
-        5 => Op::SyscallOnce { f: gen_fun(r), x, nested },
-        6 => Op::CmdSyscall { f: gen_fun(r), x, nested },
+    match r.below(21) {
+        0..=4 => Op::Syscall { f: gen_fun(r), x, nested, via: r.below(5) as u8 },
+        5 => Op::SyscallOnce { f: gen_fun(r), x, nested, via: r.below(2) as u8 },
+        6 => Op::CmdSyscall { f: gen_fun(r), x, nested, via: r.below(5) as u8 },
         7..=9 => Op::Named { name: r.below(NN as usize) as u8, f: gen_fun(r), x, nested },
         10..=11 => Op::NamedDirect { name: r.below(NN as usize) as u8, f: gen_fun(r), x, nested },
-        12 => Op::RegisterNamed { name: r.below(NN as usize) as u8, f: gen_fun(r) },
-        13..=14 => Op::Spawn { slot: r.below(NS as usize) as u8, f: gen_fun(r) },
-        15..=17 => Op::Spawned { slot: r.below(NS as usize) as u8, x, nested },
-        18 => Op::CmdSpawned { slot: r.below(NS as usize) as u8, x, nested: vec![] },
+        12 => {
+            if r.chance(50) {
+                Op::RegisterNamed { name: r.below(NN as usize) as u8, f: gen_fun(r) }
+            } else {
+                Op::RevokeNamed { name: r.below(NN as usize) as u8, f: gen_fun(r), via: r.below(2) as u8 }
+            }
+        }
+        13..=14 => Op::Spawn { slot: r.below(NS as usize) as u8, f: gen_fun(r), via: r.below(5) as u8 },
+        15..=16 => Op::Spawned { slot: r.below(NS as usize) as u8, x, nested },
+        17..=18 => Op::CmdSpawned { slot: r.below(NS as usize) as u8, x, nested },
         _ => Op::DespawnSpawned { slot: r.below(NS as usize) as u8 },
     }
 }
@@ -298,13 +439,21 @@ pub struct SeqResult {
     pub reentrant: u32,
     pub keys: usize,
     pub log: Vec<LogEv>,
+    pub cmd_spawned_ran: u32,
+    pub revocations: u32,
+    pub validations: u32,
+    pub spawn_forms: BTreeSet<u8>,
 }
 
 pub fn run_sequence(ops: &[Op]) -> SeqResult {
-    let mut world = World::new();
-    let log = Log(Arc::new(Mutex::new(LogState { evs: vec![], next_call: 0, ids: [None; NS as usize] })));
-    world.insert_resource(log.clone());
-    exec_ops(&mut world, ops);
+    // an `App` only because `setup_auto_despawn` (needed by `spawn_rc_system`) is an `App` extension
+    let mut app = App::new();
+    app.setup_auto_despawn();
+    let log = Log(Arc::new(Mutex::new(LogState { evs: vec![], next_call: 0, ids: [None; NS as usize], signals: [None, None, None], validations: 0 })));
+    app.world_mut().insert_resource(log.clone());
+    exec_ops(app.world_mut(), ops);
+    lk(&log.0).signals = [None, None, None];
+    drop(app);
     let evs = lk(&log.0).evs.clone();
     let mut m = ModelFull::default();
     m.exec(ops, 0);
@@ -369,7 +518,30 @@ pub fn run_sequence(ops: &[Op]) -> SeqResult {
             (None, None) => {}
         }
     }
-    SeqResult { violations, calls: m.next_call, nested: m.nested_calls, reentrant: m.reentrant_calls, keys: m.keys_touched.len(), log: evs }
+    let validations = lk(&log.0).validations;
+    SeqResult {
+        violations,
+        calls: m.next_call,
+        nested: m.nested_calls,
+        reentrant: m.reentrant_calls,
+        keys: m.keys_touched.len(),
+        log: evs,
+        cmd_spawned_ran: m.cmd_spawned_ran,
+        revocations: m.revocations,
+        validations,
+        spawn_forms: m.spawn_forms,
+    }
+}
+
+/// Model of a spawned system slot.
+#[derive(Clone, Copy, Debug)]
+struct Sp {
+    f: Fun,
+    n: u32,
+    alive: bool,
+    running: bool,
+    /// spawned from the unit-returning variant: only `Commands::spawned_syscall` can run it
+    unit: bool,
 }
 
 // The model struct with all fields (kept in one place so Default derives cleanly).
@@ -377,7 +549,7 @@ pub fn run_sequence(ops: &[Op]) -> SeqResult {
 struct ModelFull {
     store: BTreeMap<Key, u32>,
     taken: Vec<Key>,
-    spawned: [Option<(Fun, u32, bool, bool)>; NS as usize],
+    spawned: [Option<Sp>; NS as usize],
     next_call: u32,
     expect: BTreeMap<u32, Outc>,
     unit_results: BTreeMap<u32, Outc>,
@@ -386,6 +558,9 @@ struct ModelFull {
     nested_calls: u32,
     reentrant_calls: u32,
     spawn_gen: [u32; NS as usize],
+    revocations: u32,
+    cmd_spawned_ran: u32,
+    spawn_forms: BTreeSet<u8>,
 }
 
 impl ModelFull {
@@ -410,22 +585,30 @@ impl ModelFull {
                 self.nested_calls += 1;
             }
             let res = match op {
-                Op::Syscall { f, x, nested } => {
+                Op::Syscall { f, x, nested, .. } => {
                     self.keys_touched.insert(format!("syscall:{:?}", f));
                     self.run_keyed(Key::Sys(*f), *f, *x, nested, call, depth)
                 }
-                Op::SyscallOnce { f, x, nested } => {
+                Op::SyscallOnce { f, x, nested, .. } => {
                     self.keys_touched.insert(format!("once:{:?}", f));
                     self.bodies.insert(call, (*f, 1));
                     self.exec(nested, depth + 1);
                     Outc::Ok(expected_value(*f, *x), 1)
                 }
-                Op::CmdSyscall { f, x, nested } => {
+                Op::CmdSyscall { f, x, nested, via } => {
                     let i = match f {
                         Fun::Ord(i) | Fun::Excl(i) => *i,
                     };
-                    self.keys_touched.insert(format!("cmd-syscall:{i}"));
-                    let r = self.run_keyed(Key::SysUnit(i), Fun::Ord(i), *x, nested, call, depth);
+                    let r = if matches!(via % 5, 2 | 3) {
+                        // the `once` forms never cache the system
+                        self.keys_touched.insert(format!("cmd-syscall-once:{i}"));
+                        self.bodies.insert(call, (Fun::Ord(i), 1));
+                        self.exec(nested, depth + 1);
+                        Outc::Ok(expected_value(Fun::Ord(i), *x), 1)
+                    } else {
+                        self.keys_touched.insert(format!("cmd-syscall:{i}"));
+                        self.run_keyed(Key::SysUnit(i), Fun::Ord(i), *x, nested, call, depth)
+                    };
                     self.unit_results.insert(call, r);
                     Outc::Queued
                 }
@@ -446,40 +629,75 @@ impl ModelFull {
                     self.store.insert(Key::Named(*name, *f), 0);
                     Outc::Done
                 }
-                Op::Spawn { slot, f } => {
-                    self.spawned[*slot as usize % NS as usize] = Some((*f, 0, true, false));
+                Op::RevokeNamed { name, f, .. } => {
+                    // forgets the stored system; one that is running at the moment is put back when it returns
+                    self.store.remove(&Key::Named(*name, *f));
+                    self.revocations += 1;
+                    Outc::Done
+                }
+                Op::Spawn { slot, f, via } => {
+                    let unit = via % 5 == 4;
+                    let f = if unit {
+                        match f {
+                            Fun::Ord(i) | Fun::Excl(i) => Fun::Ord(*i),
+                        }
+                    } else {
+                        *f
+                    };
+                    self.spawned[*slot as usize % NS as usize] = Some(Sp { f, n: 0, alive: true, running: false, unit });
                     self.spawn_gen[*slot as usize % NS as usize] += 1;
+                    self.spawn_forms.insert(via % 5);
                     Outc::Done
                 }
                 Op::Spawned { slot, x, nested } => {
                     let s = *slot as usize % NS as usize;
                     self.keys_touched.insert(format!("spawned:{s}"));
                     match self.spawned[s] {
-                        Some((f, n, true, false)) => {
-                            self.spawned[s] = Some((f, n, true, true));
+                        Some(Sp { f, n, alive: true, running: false, unit: false }) => {
+                            self.spawned[s] = Some(Sp { f, n, alive: true, running: true, unit: false });
                             self.bodies.insert(call, (f, n + 1));
                             let gen_before = self.spawn_gen[s];
                             self.exec(nested, depth + 1);
                             // reinserted only if the same entity still exists
                             if self.spawn_gen[s] == gen_before {
-                                if let Some((_, _, alive, _)) = self.spawned[s] {
-                                    self.spawned[s] = Some((f, n + 1, alive, false));
+                                if let Some(sp) = self.spawned[s] {
+                                    self.spawned[s] = Some(Sp { f, n: n + 1, alive: sp.alive, running: false, unit: false });
                                 }
                             }
                             Outc::Ok(expected_value(f, *x), n + 1)
                         }
-                        Some((_, _, true, true)) => {
+                        Some(Sp { alive: true, running: true, unit: false, .. }) => {
                             self.reentrant_calls += 1;
                             Outc::Err
                         }
                         _ => Outc::Err,
                     }
                 }
-                Op::CmdSpawned { .. } => Outc::Queued,
+                Op::CmdSpawned { slot, x, nested } => {
+                    // the `Commands` form calls with output type `()`: it only finds systems spawned from the unit variant
+                    let s = *slot as usize % NS as usize;
+                    if let Some(Sp { f, n, alive: true, running: false, unit: true }) = self.spawned[s] {
+                        self.keys_touched.insert(format!("cmd-spawned:{s}"));
+                        self.spawned[s] = Some(Sp { f, n, alive: true, running: true, unit: true });
+                        self.bodies.insert(call, (f, n + 1));
+                        let gen_before = self.spawn_gen[s];
+                        self.exec(nested, depth + 1);
+                        if self.spawn_gen[s] == gen_before {
+                            if let Some(sp) = self.spawned[s] {
+                                self.spawned[s] = Some(Sp { f, n: n + 1, alive: sp.alive, running: false, unit: true });
+                            }
+                        }
+                        self.unit_results.insert(call, Outc::Ok(expected_value(f, *x), n + 1));
+                        self.cmd_spawned_ran += 1;
+                    } else if matches!(self.spawned[s], Some(Sp { alive: true, running: true, unit: true, .. })) {
+                        self.reentrant_calls += 1;
+                    }
+                    Outc::Queued
+                }
                 Op::DespawnSpawned { slot } => {
                     let s = *slot as usize % NS as usize;
-                    if let Some((f, n, _, running)) = self.spawned[s] {
-                        self.spawned[s] = Some((f, n, false, running));
+                    if let Some(sp) = self.spawned[s] {
+                        self.spawned[s] = Some(Sp { alive: false, ..sp });
                     }
                     Outc::Done
                 }
@@ -513,6 +731,10 @@ pub fn run_check(cfg: &SyscConfig) -> (usize, Option<String>) {
     let mut calls = 0u64;
     let mut nested = 0u64;
     let mut reentrant = 0u64;
+    let mut cmd_spawned_ran = 0u64;
+    let mut revocations = 0u64;
+    let mut validations = 0u64;
+    let mut spawn_forms: BTreeMap<u8, u64> = BTreeMap::new();
     let mut nontrivial = 0usize;
     let mut shapes: BTreeSet<u64> = BTreeSet::new();
     let mut sigs: BTreeMap<String, (usize, Vec<Op>, String)> = BTreeMap::new();
@@ -537,6 +759,12 @@ pub fn run_check(cfg: &SyscConfig) -> (usize, Option<String>) {
         calls += r.calls as u64;
         nested += r.nested as u64;
         reentrant += r.reentrant as u64;
+        cmd_spawned_ran += r.cmd_spawned_ran as u64;
+        revocations += r.revocations as u64;
+        validations += r.validations as u64;
+        for f in r.spawn_forms.iter() {
+            *spawn_forms.entry(*f).or_insert(0) += 1;
+        }
         if r.keys >= 2 && r.nested >= 1 {
             nontrivial += 1;
             let mut h = 0xcbf29ce484222325u64;
@@ -598,12 +826,16 @@ pub fn run_check(cfg: &SyscConfig) -> (usize, Option<String>) {
         "coverage": {
             "evaluations": evaluations,
             "distinct_nontrivial": shapes.len(),
-            "rule": "seeded random call sequences (5-40 top-level calls, nesting depth <=2 quick / <=3 thorough) over syscall, syscall_once, Commands::syscall, named_syscall, named_syscall_direct, register_named_system, spawn_system, spawned_syscall, Commands::spawned_syscall and despawning of spawned systems, with 6 function types (3 ordinary, 3 exclusive), 3 names, 3 spawned slots; nested calls are made from inside exclusive systems and from commands queued by ordinary systems; non-trivial = sequence that touches >=2 keys and contains >=1 nested call; distinct = distinct logs (call/body/marker/return kinds and local counters in order)",
+            "rule": "seeded random call sequences (5-40 top-level calls, nesting depth <=2 quick / <=3 thorough) over syscall / World::syscall / *_with_validation, World::syscall_once(_with_validation), the Commands and EntityCommands forms of all of these, named_syscall, named_syscall_direct, register_named_system, IdMappedSystems::revoke / revoke_sysname, spawn_system / Commands::spawn_system / Commands::insert_system / spawn_rc_system (released through its AutoDespawnSignal + garbage collection), spawned_syscall, Commands::spawned_syscall (on value-returning systems, which it must not find, and on unit systems, which it runs) and despawning of spawned systems, with 6 function types (3 ordinary, 3 exclusive), 3 names, 3 spawned slots; nested calls are made from inside exclusive systems and from commands queued by ordinary systems; non-trivial = sequence that touches >=2 keys and contains >=1 nested call; distinct = distinct logs (call/body/marker/return kinds and local counters in order)",
             "samples": samples,
             "calls_checked": calls,
             "nested_calls": nested,
             "reentrant_same_key_calls": reentrant,
             "sequences_nontrivial": nontrivial,
+            "commands_spawned_syscalls_that_ran_a_unit_system": cmd_spawned_ran,
+            "named_system_revocations": revocations,
+            "validation_callbacks_observed": validations,
+            "sequences_per_spawn_form (0 spawn_system, 1 Commands::spawn_system, 2 Commands::insert_system, 3 spawn_rc_system, 4 unit system)": spawn_forms,
         },
         "assumptions": ["the documented recursion caveat of syscall/named_syscall (a re-entrant call sees fresh state that is discarded) is modelled as documented"],
         "wall_s": t0.elapsed().as_secs_f64(),
